@@ -760,6 +760,13 @@ class Interp:
             it = self.ev(e.generators[0].iter, env)
             if isinstance(it, (symcoll.NameDict, symcoll.NameSet)):
                 return symcoll.names_comprehension(self, e, env, it)
+            g = e.generators[0]
+            if isinstance(it, symcoll.SymList) and isinstance(g.target, ast.Name) and isinstance(e.elt, ast.Name) \
+                    and e.elt.id == g.target.id:
+                d = symcoll.SymListDerived(it, bool(g.ifs))
+                if g.ifs:
+                    self.assume(z3.And(d.n >= 0, d.n <= it.n))
+                return d
         return list(self.comprehend(e, env))
 
     def e_SetComp(self, e, env):
